@@ -149,6 +149,21 @@ class NPProxy:
             x = float(conc_scalar(x, "rad2deg argument"))
         return real_np.rad2deg(x)
 
+    def round(self, x, decimals=0, **kw):
+        if has_sym(x) and decimals == 0:
+            a = objarr(x)
+            out = real_np.empty(a.shape, dtype=object)
+            for idx, v in real_np.ndenumerate(a):
+                out[idx] = real_np.float64(round(v))
+            return out if a.shape else out[()]
+        return real_np.round(x, decimals, **kw)
+
+    def rint(self, x):
+        return self.round(x)
+
+    def around(self, x, decimals=0, **kw):
+        return self.round(x, decimals, **kw)
+
     def floor(self, x):
         if has_sym(x):
             a = objarr(x)
